@@ -13,6 +13,10 @@ CLAUSE = ("TZ clause: on every path from a successful change_tz()/localtime_tz()
 CLAUSE = CLAUSE + (" In valid_pil_lto_to_time every path to the broken-down-time call adds the UTC offset to the reference time "
                    "(the year is chosen in local time for either sign of the offset) and the result takes it out again; the two "
                    "validity-window implementations (UTC offset / TZ string) draw the early-morning line at the same hour (< 4).")
+CLAUSE = CLAUSE + (" Every restore_tz() call passes the same saved-copy pointer and the same zone expression as the acquire "
+                   "(change_tz / localtime_tz) of its function.")
+CLAUSE = CLAUSE + (" is_leap_year() reads the year only through remainders by divisors of 400, and on each of the 400 residue "
+                   "classes (a finite congruence domain covering every year) its control flow yields the Gregorian rule.")
 NOT_DECIDED = ("year inference, leap-day acceptance, validity-window lengths, overflow checks (numeric); "
                "libc setenv/tzset semantics and restore_tz's own ENOMEM path are trusted/documented exceptions.")
 
@@ -149,6 +153,36 @@ def run(ctx, run):
                       "%s:%d" % (f.file, f.line))
     for f, eid, msg in spec.errors:
         run.violation("RF-PAIR/TZ", "RF-PAIR/TZ:%s:order" % f.name, msg, ex.loc(f, eid))
+    # the release names the same time zone and the same saved copy as the acquire: restore_tz
+    # (old_tz, tz) does nothing when tz == NULL ("caller's zone was used, nothing changed"), so
+    # handing it anything but the acquire's own `tz` leaves TZ changed whenever that is NULL
+    n_rel = 0
+    for f in lib:
+        if not spec.touches(f) or f.name in OWNERS:
+            continue
+        acq_args = {}
+        for _, i in flow.all_events(f):
+            e = f.exprs[i]
+            if e["k"] == "call" and e.get("callee") == "change_tz" and len(e.get("c", [])) >= 2:
+                acq_args[(ex.pretty(f, e["c"][0]), ex.pretty(f, e["c"][1]))] = i
+            if e["k"] == "call" and e.get("callee") == "localtime_tz" and len(e.get("c", [])) >= 4:
+                acq_args[(ex.pretty(f, e["c"][1]), ex.pretty(f, e["c"][3]))] = i
+        for _, i in flow.all_events(f):
+            e = f.exprs[i]
+            if not (e["k"] == "call" and e.get("callee") == "restore_tz" and len(e.get("c", [])) >= 2):
+                continue
+            n_rel += 1
+            got = (ex.pretty(f, e["c"][0]), ex.pretty(f, e["c"][1]))
+            key = "RF-PAIR/TZ:%s:same-arguments@%d" % (f.name, f.exprs[i]["line"])
+            if got in acq_args:
+                run.holds("RF-PAIR/TZ", key, "restore_tz (%s, %s) names the saved copy and the zone of the acquire" % got, ex.loc(f, i))
+            else:
+                run.violation("RF-PAIR/TZ", key, "`%s` does not pass the arguments of the acquire in %s() (%s): restore_tz() is a "
+                              "no-op for a NULL zone and restores from the copy it is given, so TZ stays changed (or is restored "
+                              "from the wrong copy) on this path" % (ex.pretty(f, i)[:60], f.name,
+                                                                      " / ".join("(%s, %s)" % k for k in acq_args) or "none"),
+                              ex.loc(f, i))
+    run.floor("restore_tz call sites", n_rel, 8)
     run.floor("RF-PAIR/TZ functions reaching change_tz", n_roots, 4)
     run.floor("RF-PAIR/TZ acquire sites", n_acq, 4)
 
@@ -158,6 +192,7 @@ def run(ctx, run):
 
     # ---- RF-UNIT: struct tm years are offsets from 1900 -----------------------------
     _check_tm_year(ctx, run)
+    _leap_rule(ctx, run)
     _offset_applied(ctx, run)
     _sibling_thresholds(ctx, run)
     _leap_check_after_date(ctx, run)
@@ -474,3 +509,103 @@ def _leap_check_after_date(ctx, run):
                               "date, never fails, and 29 February of a non-leap year is normalised to 1 March instead of being "
                               "refused", ex.loc(f, i))
     run.floor("tm_leap_day_check call sites", n, 2)
+
+
+def _leap_rule(ctx, run):
+    """RF-TAB over a congruence domain: is_leap_year() reads its argument only through
+    `year % d` with constant divisors d | 400, so its result is a function of the residue class
+    year mod 400 - a finite abstract domain that covers every year.  The function's control flow
+    is evaluated on each of the 400 classes and compared with the Gregorian rule (divisible by 4,
+    and by 100 only if also by 400)."""
+    P = ctx.prog
+    f = P.need("is_leap_year", "src/pdc.c")
+    run.touch(f)
+    pname = f.params[0]["name"]
+    parent = {}
+    for i, e in enumerate(f.exprs):
+        for c in e.get("c", []) or []:
+            if isinstance(c, int) and c >= 0:
+                parent[c] = i
+    mod = 1
+    for i, e in enumerate(f.exprs):
+        if e["k"] == "ref" and e.get("name") == pname:
+            j = i
+            while j in parent and f.exprs[parent[j]]["k"] == "cast":
+                j = parent[j]
+            p = f.exprs[parent[j]] if j in parent else None
+            d = ex.const(f, p["c"][1]) if p is not None and p["k"] == "bin" and p["op"] == "%" and p["c"][0] == j else None
+            if not d or 400 % d:
+                run.note("is_leap_year reads `%s` other than through `%% d` with d | 400 (%s): the congruence evaluation does not "
+                         "apply; leap rule not decided" % (pname, ex.pretty(f, parent.get(j, i))[:40]))
+                return
+            mod = 400
+
+    def ev(i, r):
+        e = f.exprs[i]
+        if "v" in e:
+            return e["v"]
+        k = e["k"]
+        if k == "cast":
+            return ev(e["c"][0], r)
+        if k == "ref" and e.get("name") == pname:
+            return ("year", r)
+        if k == "un" and e["op"] == "!":
+            return int(not ev(e["c"][0], r))
+        if k == "bin":
+            op = e["op"]
+            if op == "&&":
+                return int(bool(ev(e["c"][0], r)) and bool(ev(e["c"][1], r)))
+            if op == "||":
+                return int(bool(ev(e["c"][0], r)) or bool(ev(e["c"][1], r)))
+            a, b = ev(e["c"][0], r), ev(e["c"][1], r)
+            if op == "%" and isinstance(a, tuple):
+                return a[1] % b
+            if isinstance(a, tuple) or isinstance(b, tuple):
+                raise AnalysisBroken("is_leap_year: the year escapes the residue domain in `%s`" % ex.pretty(f, i))
+            return {"==": a == b, "!=": a != b, "<": a < b, ">": a > b, "<=": a <= b, ">=": a >= b, "+": a + b, "-": a - b,
+                    "*": a * b, "&": a & b, "|": a | b}.get(op, None) if op in ("==", "!=", "<", ">", "<=", ">=", "+", "-", "*", "&", "|") \
+                else _broken(f, i)
+        return _broken(f, i)
+
+    wrong = []
+    for r in range(400):
+        bid, steps, res = f.entry, 0, None
+        while res is None:
+            steps += 1
+            if steps > 64:
+                raise AnalysisBroken("is_leap_year: control flow does not reach a return")
+            b = f.blocks[bid]
+            for i in b.elems:
+                if f.exprs[i]["k"] == "ret":
+                    res = int(bool(ev(f.exprs[i]["c"][0], r)))
+                    break
+                if f.exprs[i]["k"] in ("asg", "decl", "call"):
+                    raise AnalysisBroken("is_leap_year: statement `%s` is outside the congruence evaluator" % ex.pretty(f, i)[:40])
+            if res is not None:
+                break
+            edges = f.edges(bid)
+            if b.term and "cond" in b.term:
+                v = bool(ev(b.term["cond"], r))
+                nxt = [s for s, l in edges if l == ("T" if v else "F")]
+            else:
+                nxt = [s for s, l in edges]
+            if not nxt:
+                raise AnalysisBroken("is_leap_year: dead end in the control flow")
+            bid = nxt[0]
+        want = int(r % 4 == 0 and (r % 100 != 0 or r == 0))
+        if res != want:
+            wrong.append((r, res))
+    key = "RF-TAB:is_leap_year:gregorian"
+    if wrong:
+        ex_r = [r for r, _ in wrong][:6]
+        run.violation("RF-TAB", key, "is_leap_year() disagrees with the Gregorian rule on %d of the 400 residue classes year mod 400 "
+                      "(e.g. year = %s mod 400, i.e. %s): the leap-day check accepts 29 February in those years or refuses it in "
+                      "real leap years" % (len(wrong), ", ".join(map(str, ex_r)), ", ".join(str(2000 + r) for r in ex_r[:3])),
+                      "%s:%d" % (f.file, f.line), witness={"classes": ex_r})
+    else:
+        run.holds("RF-TAB", key, "the argument is read only through %% 4, %% 100, %% 400; on all 400 residue classes mod 400 the result "
+                  "equals the Gregorian rule", "%s:%d" % (f.file, f.line))
+
+
+def _broken(f, i):
+    raise AnalysisBroken("is_leap_year: expression `%s` is outside the congruence evaluator" % ex.pretty(f, i)[:40])
